@@ -81,6 +81,18 @@ Theorem C16_hash_old_refuted : forall thash, thash [0; 1] <> thash [1; 0] ->
 Proof. exact hash_old_refuted. Qed.
 Print Assumptions C16_hash_old_refuted.
 
+(* FrozenApprovalBallot(approval_ballot) -- the constructor given the set -- is the name-sorted tuple, the very
+   frozen ballot that ballot.frozen() returns, for every iteration order of the set; hence C16_canonical_fixed /
+   C16_multiprofile_faithful_fixed cover this construction path too *)
+Theorem C16_frozen_from_set_fixed : forall enum b, frozen_app_of_ballot enum b = frozen KApp enum b.
+Proof. exact frozen_from_set_fixed. Qed.
+Print Assumptions C16_frozen_from_set_fixed.
+
+Theorem C16_frozen_from_set_old_refuted :
+  exists enum b, enum_ok enum /\ feq (frozen_app_of_ballot_old enum b) (frozen KApp enum b) = false.
+Proof. exact frozen_from_set_old_refuted. Qed.
+Print Assumptions C16_frozen_from_set_old_refuted.
+
 (* non-vacuity: a concrete history on which entries merge and multiplicities exceed 1 *)
 Example C16_nonvacuous :
   let m := run (kmatch (fhash thash0 ehash0)) (frozen KCard enum_ins)
